@@ -204,6 +204,39 @@ func init() {
 		}
 		return Iface{T: fv.Type(), V: val}
 	})
+	reg("DependsOn", func(m *Machine, fn *ssa.Function, a []Value) Value {
+		prefix := m.argStr(a[1])
+		bs := m.bytesToStr(a[0].(Slice)).B
+		for _, n := range sym.FreeVars(bs...) {
+			if strings.HasPrefix(n, prefix) {
+				return m.ctx.True
+			}
+		}
+		return m.ctx.False
+	})
+	reg("Put64", func(m *Machine, fn *ssa.Function, a []Value) Value {
+		sl := a[0].(Slice)
+		off := m.concreteInt(a[1], "Put64 offset")
+		val := a[2].(*sym.Term)
+		for i := 0; i < 8; i++ {
+			m.store(m.kid(sl.Arr, sl.Off+off+i), m.ctx.Extract(val, 63-8*i, 56-8*i))
+		}
+		return nil
+	})
+	reg("Get64", func(m *Machine, fn *ssa.Function, a []Value) Value {
+		sl := a[0].(Slice)
+		off := m.concreteInt(a[1], "Get64 offset")
+		var acc *sym.Term
+		for i := 0; i < 8; i++ {
+			b := m.load(m.kid(sl.Arr, sl.Off+off+i)).(*sym.Term)
+			if acc == nil {
+				acc = b
+			} else {
+				acc = m.ctx.Concat(acc, b)
+			}
+		}
+		return acc
+	})
 	reg("PermuteMaps", func(m *Machine, fn *ssa.Function, a []Value) Value {
 		m.permuteMaps = a[0].(*sym.Term).IsTrue()
 		return nil
